@@ -9,19 +9,23 @@ Open Scope N_scope.
 
 Definition live (h : hub) (sid : N) : Prop := exists s, get_sess h sid = Some s.
 
-Record WF (h : hub) : Prop := {
+(* xr: rooms that may be missing although sessions still name them (while a room is being
+   closed); xp: parents that may be gone although their virtual sessions are still there
+   (while a session and its virtual sessions are being closed) *)
+Record WFg (xr : N * N -> Prop) (xp : N -> Prop) (h : hub) : Prop := {
   wf_members : forall k r m, room_of h k = Some r -> In m r.(r_members) ->
                  exists s, get_sess h m = Some s /\ s.(s_room) = Some k;
   wf_nonempty : forall k r, room_of h k = Some r -> r.(r_members) <> [];
   wf_incall : forall k r m, room_of h k = Some r -> In m r.(r_incall) -> In m r.(r_members);
   wf_room : forall sid s k, get_sess h sid = Some s -> s.(s_room) = Some k ->
-              exists r, room_of h k = Some r /\ In sid r.(r_members);
+              xr k \/ exists r, room_of h k = Some r /\ In sid r.(r_members);
   wf_rs1 : forall sid x, aget h.(h_rs1) sid = Some x ->
               exists s k, get_sess h sid = Some s /\ s.(s_room) = Some k;
   wf_rs2 : forall x sid, aget h.(h_rs2) x = Some sid -> aget h.(h_rs1) sid = Some x;
   wf_vt : forall p v vs, pget h.(h_vtable) (p, v) = Some vs ->
               exists s, get_sess h vs = Some s /\ s.(s_kind) = KVirtual p v;
-  wf_parent : forall vs s p v, get_sess h vs = Some s -> s.(s_kind) = KVirtual p v -> live h p;
+  wf_parent : forall vs s p v, get_sess h vs = Some s -> s.(s_kind) = KVirtual p v ->
+              xp p \/ exists ps, get_sess h p = Some ps /\ is_internal ps.(s_kind) = true;
   wf_expired : forall sid, In sid h.(h_expired) -> live h sid;
   wf_anonymous : forall sid, In sid h.(h_anonymous) -> live h sid;
   wf_dialout : forall sid, In sid h.(h_dialout) -> live h sid;
@@ -30,6 +34,18 @@ Record WF (h : hub) : Prop := {
   wf_conns : forall c cn sid, aget h.(h_conns) c = Some cn -> cn.(c_sess) = Some sid ->
               exists s, get_sess h sid = Some s /\ s.(s_conn) = Some c;
 }.
+
+Definition none2 : N * N -> Prop := fun _ => False.
+Definition none1 : N -> Prop := fun _ => False.
+Definition WF (h : hub) : Prop := WFg none2 none1 h.
+
+Lemma wf_weaken (xr xr' : N * N -> Prop) (xp xp' : N -> Prop) h :
+  (forall k, xr k -> xr' k) -> (forall p, xp p -> xp' p) -> WFg xr xp h -> WFg xr' xp' h.
+Proof.
+  intros Hr Hp W. constructor; try apply W.
+  - intros sid s k Hs Hk. destruct (wf_room _ _ h W sid s k Hs Hk); [left|right]; auto.
+  - intros vs s p v Hs Hk. destruct (wf_parent _ _ h W vs s p v Hs Hk); [left|right]; auto.
+Qed.
 
 Lemma wf_init limits gated : WF (init limits gated).
 Proof.
@@ -80,29 +96,35 @@ Qed.
 
 Ltac core_inj H := unfold core in H; injection H as ? ? ?.
 
-Lemma wf_equiv h h' : equiv h h' -> WF h -> WF h'.
+Lemma core_some_eq s s0 : Some (core s) = Some (core s0) ->
+  s_room s = s_room s0 /\ s_kind s = s_kind s0 /\ s_conn s = s_conn s0.
+Proof. unfold core. intros H. inversion H. auto. Qed.
+
+Lemma wf_equiv xr xp h h' : equiv h h' -> WFg xr xp h -> WFg xr xp h'.
 Proof.
   intros E W. pose proof (equiv_live h h') as EL.
   constructor; unfold room_of in *.
-  - intros k r m Hr Hm. rewrite (eq_rooms _ _ E) in Hr. destruct (wf_members h W k r m Hr Hm) as [s [Hs Hk]].
+  - intros k r m Hr Hm. rewrite (eq_rooms _ _ E) in Hr. destruct (wf_members _ _ h W k r m Hr Hm) as [s [Hs Hk]].
     destruct (equiv_get' _ _ _ _ E Hs) as [s' [Hs' Hc]]. core_inj Hc. exists s'. split; congruence.
   - intros k r Hr. rewrite (eq_rooms _ _ E) in Hr. eapply wf_nonempty; eauto.
   - intros k r m Hr. rewrite (eq_rooms _ _ E) in Hr. eapply wf_incall; eauto.
   - intros sid s' k Hs Hk. destruct (equiv_get _ _ _ _ E Hs) as [s [Hs0 Hc]]. core_inj Hc.
-    rewrite (eq_rooms _ _ E). eapply wf_room; eauto. congruence.
-  - intros sid x Hx. rewrite (eq_rs1 _ _ E) in Hx. destruct (wf_rs1 h W sid x Hx) as [s [k [Hs Hk]]].
+    rewrite (eq_rooms _ _ E). eapply (wf_room _ _ h W); eauto. congruence.
+  - intros sid x Hx. rewrite (eq_rs1 _ _ E) in Hx. destruct (wf_rs1 _ _ h W sid x Hx) as [s [k [Hs Hk]]].
     destruct (equiv_get' _ _ _ _ E Hs) as [s' [Hs' Hc]]. core_inj Hc. exists s', k. split; congruence.
   - intros x sid Hx. rewrite (eq_rs2 _ _ E) in Hx. rewrite (eq_rs1 _ _ E). eapply wf_rs2; eauto.
-  - intros p v vs Hv. rewrite (eq_vt _ _ E) in Hv. destruct (wf_vt h W p v vs Hv) as [s [Hs Hk]].
+  - intros p v vs Hv. rewrite (eq_vt _ _ E) in Hv. destruct (wf_vt _ _ h W p v vs Hv) as [s [Hs Hk]].
     destruct (equiv_get' _ _ _ _ E Hs) as [s' [Hs' Hc]]. core_inj Hc. exists s'. split; congruence.
   - intros vs s' p v Hs Hk. destruct (equiv_get _ _ _ _ E Hs) as [s [Hs0 Hc]]. core_inj Hc.
-    apply EL; [assumption|]. apply (wf_parent h W vs s p v Hs0). congruence.
+    assert (Hk' : s_kind s = KVirtual p v) by congruence.
+    destruct (wf_parent _ _ h W vs s p v Hs0 Hk') as [?|[ps [Hps Hpi]]]; [left; assumption|right].
+    destruct (equiv_get' _ _ _ _ E Hps) as [ps' [Hps' Hcp]]. core_inj Hcp. exists ps'. split; [assumption|congruence].
   - intros sid Hi. rewrite (eq_expired _ _ E) in Hi. apply EL; auto. eapply wf_expired; eauto.
   - intros sid Hi. rewrite (eq_anonymous _ _ E) in Hi. apply EL; auto. eapply wf_anonymous; eauto.
   - intros sid Hi. rewrite (eq_dialout _ _ E) in Hi. apply EL; auto. eapply wf_dialout; eauto.
   - intros sid Hi. rewrite (eq_clients _ _ E) in Hi. apply EL; auto. eapply wf_clients; eauto.
   - intros b l sid Hb Hi. rewrite (eq_counted _ _ E) in Hb. apply EL; auto. eapply wf_counted; eauto.
-  - intros c cn sid Hc Hs. rewrite (eq_conns _ _ E) in Hc. destruct (wf_conns h W c cn sid Hc Hs) as [s [Hs0 Hcn]].
+  - intros c cn sid Hc Hs. rewrite (eq_conns _ _ E) in Hc. destruct (wf_conns _ _ h W c cn sid Hc Hs) as [s [Hs0 Hcn]].
     destruct (equiv_get' _ _ _ _ E Hs0) as [s' [Hs' Hco]]. core_inj Hco. exists s'. split; congruence.
 Qed.
 
@@ -158,4 +180,595 @@ Lemma equiv_leave_call h sid : equiv h (fst (leave_call h sid)).
 Proof.
   unfold leave_call. destruct (get_sess h sid) as [s|]; [|apply equiv_refl].
   destruct (s_kind s); destruct (s_room s); try apply equiv_refl; apply equiv_release_mcu.
+Qed.
+
+(* ------------------------------------------------------------------ list tables *)
+Section Lists.
+  Context (xr : N * N -> Prop).
+  Context (xp : N -> Prop).
+
+  Lemma wf_set_expired h v : WFg xr xp h -> (forall x, In x v -> live h x) -> WFg xr xp (set_expired h v).
+  Proof. intros W Hv. constructor; try apply W. exact Hv. Qed.
+  Lemma wf_set_anonymous h v : WFg xr xp h -> (forall x, In x v -> live h x) -> WFg xr xp (set_anonymous h v).
+  Proof. intros W Hv. constructor; try apply W. exact Hv. Qed.
+  Lemma wf_set_dialout h v : WFg xr xp h -> (forall x, In x v -> live h x) -> WFg xr xp (set_dialout h v).
+  Proof. intros W Hv. constructor; try apply W. exact Hv. Qed.
+  Lemma wf_set_clients h v : WFg xr xp h -> (forall x, In x v -> live h x) -> WFg xr xp (set_clients h v).
+  Proof. intros W Hv. constructor; try apply W. exact Hv. Qed.
+
+  Lemma in_nrem x y l : In x (nrem y l) -> In x l.
+  Proof. intros H. apply nmem_In in H. rewrite nmem_nrem in H. apply andb_prop in H as [_ H]. now apply nmem_In. Qed.
+  Lemma in_nrem_ne x y l : In x (nrem y l) -> x <> y.
+  Proof. intros H. apply nmem_In in H. rewrite nmem_nrem in H. apply andb_prop in H as [H _]. intros ->. now rewrite N.eqb_refl in H. Qed.
+  Lemma in_nadd x y l : In x (nadd y l) -> x = y \/ In x l.
+  Proof.
+    intros H. apply nmem_In in H. rewrite nmem_nadd in H. apply orb_prop in H as [H|H].
+    - left. now apply N.eqb_eq. - right. now apply nmem_In.
+  Qed.
+  Lemma in_nadd_intro x y l : x = y \/ In x l -> In x (nadd y l).
+  Proof.
+    intros H. apply nmem_In. rewrite nmem_nadd. destruct H as [->|H]; [now rewrite N.eqb_refl|].
+    apply nmem_In in H. rewrite H. apply orb_true_r.
+  Qed.
+End Lists.
+
+(* ------------------------------------------------------------------ the room-session map *)
+Lemma wf_rs_del xr xp h sid : WFg xr xp h -> WFg xr xp (rs_del h sid).
+Proof.
+  intros W. unfold rs_del, rs_set. cbn [N.eqb]. destruct (aget (h_rs1 h) sid) as [prev|] eqn:Hp; [|exact W].
+  constructor; try apply W.
+  - intros s x. hsimpl. rewrite aget_adel. destruct (N.eqb_spec s sid); [discriminate|]. apply (wf_rs1 _ _ h W).
+  - intros x s. hsimpl. intros Hx.
+    assert (Hx0 : aget (h_rs2 h) x = Some s /\ (x = prev -> s <> sid)).
+    { destruct (aget (h_rs2 h) prev) as [owner|] eqn:Ho.
+      - destruct (N.eqb_spec owner sid) as [->|Hne].
+        + rewrite aget_adel in Hx. destruct (N.eqb_spec x prev); [discriminate|]. split; [assumption|contradiction].
+        + split; [assumption|]. intros ->. congruence.
+      - split; [assumption|]. intros ->. congruence. }
+    destruct Hx0 as [Hx0 Hne]. pose proof (wf_rs2 _ _ h W x s Hx0) as H1.
+    rewrite aget_adel. destruct (N.eqb_spec s sid) as [->|]; [|assumption].
+    exfalso. rewrite Hp in H1. injection H1 as ->. now apply Hne.
+Qed.
+
+(* setting the room session id of a session that is in a room *)
+Lemma wf_rs_set xr xp h sid rs s k : WFg xr xp h -> get_sess h sid = Some s -> s.(s_room) = Some k ->
+  WFg xr xp (rs_set h sid rs).
+Proof.
+  intros W Hs Hk. destruct (N.eqb_spec rs 0) as [->|Hrs]; [apply wf_rs_del; exact W|].
+  unfold rs_set. destruct (N.eqb_spec rs 0); [contradiction|].
+  destruct (aget (h_rs1 h) sid) as [prev|] eqn:Hp.
+  - destruct (N.eqb_spec prev rs); [exact W|].
+    constructor; try apply W.
+    + intros s0 x. hsimpl. rewrite aget_aset. destruct (N.eqb_spec s0 sid) as [->|]; [intros _; eauto|apply (wf_rs1 _ _ h W)].
+    + intros x s0. hsimpl. rewrite !aget_aset. destruct (N.eqb_spec x rs) as [->|Hx].
+      * intros H. injection H as <-. now rewrite N.eqb_refl.
+      * rewrite aget_adel. destruct (N.eqb_spec x prev) as [->|]; [discriminate|]. intros H.
+        pose proof (wf_rs2 _ _ h W x s0 H) as H1. destruct (N.eqb_spec s0 sid) as [->|]; [|assumption].
+        rewrite Hp in H1. congruence.
+  - constructor; try apply W.
+    + intros s0 x. hsimpl. rewrite aget_aset. destruct (N.eqb_spec s0 sid) as [->|]; [intros _; eauto|apply (wf_rs1 _ _ h W)].
+    + intros x s0. hsimpl. rewrite !aget_aset. destruct (N.eqb_spec x rs) as [->|Hx].
+      * intros H. injection H as <-. now rewrite N.eqb_refl.
+      * intros H. pose proof (wf_rs2 _ _ h W x s0 H) as H1. destruct (N.eqb_spec s0 sid) as [->|]; [|assumption].
+        rewrite Hp in H1. discriminate.
+Qed.
+
+(* ------------------------------------------------------------------ leaving a room *)
+Lemma room_of_set_rooms h v k : room_of (set_rooms h v) k = pget v k.
+Proof. reflexivity. Qed.
+
+(* the rooms table after Room.RemoveSession *)
+Definition rooms_after_remove (h : hub) (k : N * N) (sid : N) : list ((N * N) * room) :=
+  match room_of h k with
+  | None => h.(h_rooms)
+  | Some r =>
+      if nmem sid r.(r_members) then
+        let r' := mkroom (nrem sid r.(r_members)) (nrem sid r.(r_incall)) (adel r.(r_sessdata) sid) r.(r_transient) r.(r_props) in
+        match nrem sid r.(r_members) with
+        | [] => pdel (pset h.(h_rooms) k r') k
+        | _ => pset h.(h_rooms) k r'
+        end
+      else h.(h_rooms)
+  end.
+
+Lemma room_remove_equiv h k sid : equiv (set_rooms h (rooms_after_remove h k sid)) (room_remove h k sid).
+Proof.
+  unfold room_remove, rooms_after_remove. destruct (room_of h k) as [r|] eqn:Hr.
+  - destruct (nmem sid (r_members r)) eqn:Hm.
+    + eapply equiv_trans; [|apply equiv_publish]. unfold remove_room_if_empty.
+      rewrite room_of_set_rooms, pget_pset_same. cbn [r_members].
+      destruct (nrem sid (r_members r)); constructor; reflexivity.
+    + destruct h; constructor; reflexivity.
+  - destruct h; constructor; reflexivity.
+Qed.
+
+Lemma pget_rooms_after_remove h k sid k' :
+  pget (rooms_after_remove h k sid) k' =
+  if pair_eqb k' k then
+    match room_of h k with
+    | Some r => if nmem sid r.(r_members) then
+                  match nrem sid r.(r_members) with
+                  | [] => None
+                  | _ => Some (mkroom (nrem sid r.(r_members)) (nrem sid r.(r_incall)) (adel r.(r_sessdata) sid) r.(r_transient) r.(r_props))
+                  end
+                else Some r
+    | None => None
+    end
+  else room_of h k'.
+Proof.
+  unfold rooms_after_remove. destruct (pair_eqb_spec k' k) as [->|Hne].
+  - destruct (room_of h k) as [r|] eqn:Hr; [|exact Hr].
+    destruct (nmem sid (r_members r)); [|exact Hr].
+    destruct (nrem sid (r_members r)); [apply pget_pdel_same|apply pget_pset_same].
+  - destruct (room_of h k) as [r|]; [|reflexivity].
+    destruct (nmem sid (r_members r)); [|reflexivity].
+    destruct (nrem sid (r_members r)); [rewrite pget_pdel_other by assumption|]; now rewrite pget_pset_other.
+Qed.
+
+(* the core step: a session that was in room k gets its room cleared and is taken off the member list *)
+Lemma wf_unroom xr xp h sid s s' k :
+  WFg xr xp h -> get_sess h sid = Some s -> s.(s_room) = Some k ->
+  s'.(s_room) = None -> s'.(s_kind) = s.(s_kind) -> s'.(s_conn) = s.(s_conn) ->
+  aget h.(h_rs1) sid = None ->
+  WFg xr xp (set_rooms (put_sess h sid s') (rooms_after_remove h k sid)).
+Proof.
+  intros W Hs Hk Hr' Hkind Hconn Hrs.
+  assert (Hget : forall x, get_sess (set_rooms (put_sess h sid s') (rooms_after_remove h k sid)) x =
+                           if N.eqb x sid then Some s' else get_sess h x).
+  { intros x. unfold get_sess, put_sess. hsimpl. apply aget_aset. }
+  assert (Hlive : forall x, live h x -> live (set_rooms (put_sess h sid s') (rooms_after_remove h k sid)) x).
+  { intros x [sx Hx]. unfold live. rewrite Hget. destruct (N.eqb_spec x sid); eauto. }
+  assert (Hroom : forall k', room_of (set_rooms (put_sess h sid s') (rooms_after_remove h k sid)) k' = pget (rooms_after_remove h k sid) k') by reflexivity.
+  constructor.
+  - (* members *)
+    intros k' r0 m. rewrite Hroom, pget_rooms_after_remove. intros Hr0 Hm.
+    assert (Hmm : exists r1, room_of h k' = Some r1 /\ In m (r_members r1) /\ m <> sid).
+    { destruct (pair_eqb_spec k' k) as [->|Hne].
+      - destruct (room_of h k) as [r|] eqn:Hrk; [|discriminate].
+        destruct (nmem sid (r_members r)) eqn:Hmem.
+        + destruct (nrem sid (r_members r)) eqn:Hn; [discriminate|]. injection Hr0 as Heq. subst r0. cbn [r_members] in Hm.
+          rewrite <- Hn in Hm. exists r. split; [reflexivity|]. split; [eapply in_nrem; eauto|eapply in_nrem_ne; eauto].
+        + injection Hr0 as Heq. subst r0. exists r. split; [reflexivity|]. split; [assumption|].
+          intros ->. apply nmem_In in Hm. congruence.
+      - exists r0. split; [assumption|]. split; [assumption|]. intros ->.
+        destruct (wf_members _ _ h W k' r0 sid Hr0 Hm) as [s0 [Hs0 Hk0]]. rewrite Hs in Hs0. injection Hs0 as <-. congruence. }
+    destruct Hmm as [r1 [Hr1 [Hm1 Hne]]]. destruct (wf_members _ _ h W k' r1 m Hr1 Hm1) as [sm [Hsm Hkm]].
+    exists sm. rewrite Hget. destruct (N.eqb_spec m sid); [contradiction|]. auto.
+  - (* nonempty *)
+    intros k' r0. rewrite Hroom, pget_rooms_after_remove.
+    destruct (pair_eqb_spec k' k) as [->|Hne]; [|apply (wf_nonempty _ _ h W)].
+    destruct (room_of h k) as [r|] eqn:Hrk; [|discriminate].
+    destruct (nmem sid (r_members r)).
+    + destruct (nrem sid (r_members r)) eqn:Hn; [discriminate|]. intros H. injection H as Heq. subst r0. cbn [r_members]. discriminate.
+    + intros H. injection H as Heq. subst r0. eapply wf_nonempty; eauto.
+  - (* incall *)
+    intros k' r0 m. rewrite Hroom, pget_rooms_after_remove.
+    destruct (pair_eqb_spec k' k) as [->|Hne]; [|apply (wf_incall _ _ h W)].
+    destruct (room_of h k) as [r|] eqn:Hrk; [|discriminate].
+    destruct (nmem sid (r_members r)).
+    + destruct (nrem sid (r_members r)) eqn:Hn; [discriminate|]. intros H. injection H as Heq. subst r0. cbn [r_members r_incall].
+      intros Hi. rewrite <- Hn. apply nmem_In. rewrite nmem_nrem.
+      pose proof (in_nrem_ne _ _ _ Hi) as Hne. apply in_nrem in Hi.
+      pose proof (wf_incall _ _ h W k r m Hrk Hi) as Hmem. apply nmem_In in Hmem. rewrite Hmem.
+      destruct (N.eqb_spec m sid); [contradiction|reflexivity].
+    + intros H. injection H as Heq. subst r0. eapply wf_incall; eauto.
+  - (* room of a session *)
+    intros x sx k'. rewrite Hget. destruct (N.eqb_spec x sid) as [->|Hne].
+    + intros H. injection H as <-. congruence.
+    + intros Hx Hkx. destruct (wf_room _ _ h W x sx k' Hx Hkx) as [Hxr|[r1 [Hr1 Hm1]]]; [now left|right].
+      rewrite Hroom, pget_rooms_after_remove. destruct (pair_eqb_spec k' k) as [->|]; [|eauto].
+      rewrite Hr1. destruct (nmem sid (r_members r1)) eqn:Hmem; [|eauto].
+      assert (Hin : In x (nrem sid (r_members r1))).
+      { apply nmem_In. rewrite nmem_nrem. apply nmem_In in Hm1. rewrite Hm1. destruct (N.eqb_spec x sid); [contradiction|reflexivity]. }
+      destruct (nrem sid (r_members r1)) eqn:Hn; [destruct Hin|]. eexists. split; [reflexivity|]. cbn [r_members]. rewrite <- Hn at 1. rewrite Hn. exact Hin.
+  - (* rs1 *)
+    intros x v Hx. assert (x <> sid) by (intros ->; hsimpl; congruence).
+    destruct (wf_rs1 _ _ h W x v Hx) as [sx [kx [Hsx Hkx]]]. exists sx, kx. rewrite Hget. destruct (N.eqb_spec x sid); [contradiction|]. auto.
+  - apply (wf_rs2 _ _ h W).
+  - (* vtable *)
+    intros p v vs Hv. destruct (wf_vt _ _ h W p v vs Hv) as [sv [Hsv Hkv]]. rewrite Hget.
+    destruct (N.eqb_spec vs sid) as [->|]; [|eauto]. exists s'. split; [reflexivity|]. rewrite Hs in Hsv. injection Hsv as <-. congruence.
+  - (* parent *)
+    intros vs sv p v. rewrite Hget. destruct (N.eqb_spec vs sid) as [->|].
+    + intros H. injection H as <-. rewrite Hkind. intros Hkv.
+      destruct (wf_parent _ _ h W sid s p v Hs Hkv) as [?|[ps [Hps Hpi]]]; [now left|right].
+      rewrite Hget. destruct (N.eqb_spec p sid) as [->|]; [|eauto]. exists s'. split; [reflexivity|]. rewrite Hs in Hps. injection Hps as <-. congruence.
+    + intros Hsv Hkv. destruct (wf_parent _ _ h W vs sv p v Hsv Hkv) as [?|[ps [Hps Hpi]]]; [now left|right].
+      rewrite Hget. destruct (N.eqb_spec p sid) as [->|]; [|eauto]. exists s'. split; [reflexivity|]. rewrite Hs in Hps. injection Hps as <-. congruence.
+  - intros x Hx. apply Hlive. eapply wf_expired; eauto.
+  - intros x Hx. apply Hlive. eapply wf_anonymous; eauto.
+  - intros x Hx. apply Hlive. eapply wf_dialout; eauto.
+  - intros x Hx. apply Hlive. eapply wf_clients; eauto.
+  - intros b l x Hb Hx. apply Hlive. eapply wf_counted; eauto.
+  - intros c cn x Hc Hx. destruct (wf_conns _ _ h W c cn x Hc Hx) as [sx [Hsx Hcx]]. rewrite Hget.
+    destruct (N.eqb_spec x sid) as [->|]; [|eauto]. exists s'. split; [reflexivity|]. rewrite Hs in Hsx. injection Hsx as <-. congruence.
+Qed.
+
+Lemma rs_del_sessions h sid : h_sessions (rs_del h sid) = h_sessions h.
+Proof.
+  unfold rs_del, rs_set. cbn [N.eqb]. destruct (aget (h_rs1 h) sid); reflexivity.
+Qed.
+Lemma rs_del_rooms h sid : h_rooms (rs_del h sid) = h_rooms h.
+Proof. unfold rs_del, rs_set. cbn [N.eqb]. destruct (aget (h_rs1 h) sid); reflexivity. Qed.
+Lemma rs_del_clears h sid : aget (h_rs1 (rs_del h sid)) sid = None.
+Proof.
+  unfold rs_del, rs_set. cbn [N.eqb]. destruct (aget (h_rs1 h) sid) eqn:H; [|exact H].
+  hsimpl. apply aget_adel_same.
+Qed.
+
+Lemma equiv_set_rooms h h' v : equiv h h' -> equiv (set_rooms h v) (set_rooms h' v).
+Proof. intros []. constructor; auto. Qed.
+
+Lemma rooms_after_remove_ext h h' k sid : h_rooms h' = h_rooms h -> rooms_after_remove h' k sid = rooms_after_remove h k sid.
+Proof. intros E. unfold rooms_after_remove, room_of. now rewrite E. Qed.
+
+Lemma equiv_sym_rooms h h' : equiv h h' -> h_rooms h' = h_rooms h.
+Proof. intros []. assumption. Qed.
+
+(* what leaving does to the sessions: the leaver's room is cleared, nothing else the invariant reads changes *)
+Definition unroomed (s : session) := (@None (N * N), s.(s_kind), s.(s_conn)).
+
+Lemma wf_leave_room xr xp h sid notify :
+  WFg xr xp h -> WFg xr xp (fst (leave_room h sid notify)).
+Proof.
+  intros W. unfold leave_room. destruct (get_sess h sid) as [s|] eqn:Hs; [|exact W].
+  destruct (s_room s) as [k|] eqn:Hk; [|exact W].
+  pose proof (wf_rs_del _ _ h sid W) as W1.
+  assert (Hs1 : get_sess (rs_del h sid) sid = Some s) by (unfold get_sess; now rewrite rs_del_sessions).
+  destruct (is_virtual (s_kind s)).
+  - cbn [fst]. eapply wf_equiv; [apply room_remove_equiv|].
+    rewrite (rooms_after_remove_ext (rs_del h sid)) by reflexivity.
+    apply (wf_unroom _ _ (rs_del h sid) sid s _ k); auto using rs_del_clears.
+  - set (s1 := upd_sess s None 0 (s_conn s) (s_perms s) (s_pending s) [] 0).
+    set (h2 := put_sess (rs_del h sid) sid s1).
+    destruct (release_mcu h2 sid) as [h3 outs2] eqn:Hrel. cbn [fst].
+    assert (E23 : equiv h2 h3) by (replace h3 with (fst (release_mcu h2 sid)) by (now rewrite Hrel); apply equiv_release_mcu).
+    eapply wf_equiv; [apply room_remove_equiv|].
+    rewrite (rooms_after_remove_ext (rs_del h sid)) by (rewrite (equiv_sym_rooms _ _ E23); reflexivity).
+    eapply wf_equiv; [apply equiv_set_rooms; exact E23|].
+    apply (wf_unroom _ _ (rs_del h sid) sid s s1 k); auto using rs_del_clears.
+Qed.
+
+Lemma leave_room_core h sid notify x :
+  option_map core (get_sess (fst (leave_room h sid notify)) x) =
+  if N.eqb x sid then
+    match get_sess h sid with
+    | Some s => match s.(s_room) with Some _ => Some (unroomed s) | None => Some (core s) end
+    | None => None
+    end
+  else option_map core (get_sess h x).
+Proof.
+  unfold leave_room. destruct (get_sess h sid) as [s|] eqn:Hs.
+  2:{ cbn [fst]. destruct (N.eqb_spec x sid) as [->|]; [now rewrite Hs|reflexivity]. }
+  destruct (s_room s) as [k|] eqn:Hk.
+  2:{ cbn [fst]. destruct (N.eqb_spec x sid) as [->|]; [now rewrite Hs|reflexivity]. }
+  assert (Hput : forall s1 y, get_sess (put_sess (rs_del h sid) sid s1) y = if N.eqb y sid then Some s1 else get_sess h y).
+  { intros s1 y. unfold get_sess, put_sess. hsimpl. rewrite aget_aset, rs_del_sessions. reflexivity. }
+  destruct (is_virtual (s_kind s)).
+  - cbn [fst]. rewrite (eq_sess _ _ (room_remove_equiv _ k sid) x).
+    unfold get_sess at 1. hsimpl. fold (get_sess (put_sess (rs_del h sid) sid (sess_room s None)) x).
+    unfold get_sess, put_sess. hsimpl. rewrite aget_aset, rs_del_sessions.
+    destruct (N.eqb_spec x sid); reflexivity.
+  - set (s1 := upd_sess s None 0 (s_conn s) (s_perms s) (s_pending s) [] 0).
+    set (h2 := put_sess (rs_del h sid) sid s1).
+    destruct (release_mcu h2 sid) as [h3 outs2] eqn:Hrel. cbn [fst].
+    assert (E23 : equiv h2 h3) by (replace h3 with (fst (release_mcu h2 sid)) by (now rewrite Hrel); apply equiv_release_mcu).
+    rewrite (eq_sess _ _ (room_remove_equiv _ k sid) x).
+    assert (Hx : get_sess (set_rooms h3 (rooms_after_remove h3 k sid)) x = get_sess h3 x) by reflexivity.
+    rewrite Hx, (eq_sess _ _ E23 x). subst h2. rewrite Hput.
+    destruct (N.eqb_spec x sid); reflexivity.
+Qed.
+
+(* ------------------------------------------------------------------ closing one session *)
+Definition or_sid (xp : N -> Prop) (sid : N) : N -> Prop := fun p => xp p \/ p = sid.
+
+Lemma detach_conn_get h oc c :
+  aget (h_conns (detach_conn h oc)) c =
+  match oc with
+  | Some c0 => if N.eqb c c0 then option_map (fun cn => mkconn cn.(c_addr) None cn.(c_expect)) (aget (h_conns h) c0)
+               else aget (h_conns h) c
+  | None => aget (h_conns h) c
+  end.
+Proof.
+  unfold detach_conn. destruct oc as [c0|]; [|reflexivity].
+  destruct (aget (h_conns h) c0) as [cn|] eqn:Hc; hsimpl.
+  - rewrite aget_aset. destruct (N.eqb_spec c c0); reflexivity.
+  - destruct (N.eqb_spec c c0) as [->|]; [now rewrite Hc|reflexivity].
+Qed.
+
+Lemma drop_vt_get h kd sid k :
+  pget (h_vtable (drop_vt h kd sid)) k =
+  match kd with
+  | KVirtual p v => if pair_eqb k (p, v) then
+                      match pget (h_vtable h) (p, v) with
+                      | Some x => if N.eqb x sid then None else Some x
+                      | None => None end
+                    else pget (h_vtable h) k
+  | _ => pget (h_vtable h) k
+  end.
+Proof.
+  unfold drop_vt. destruct kd as [| |p v]; try reflexivity.
+  destruct (pget (h_vtable h) (p, v)) as [x|] eqn:Hv.
+  - destruct (N.eqb_spec x sid); hsimpl.
+    + rewrite pget_pdel. destruct (pair_eqb_spec k (p, v)); reflexivity.
+    + destruct (pair_eqb_spec k (p, v)) as [->|]; [exact Hv|reflexivity].
+  - destruct (pair_eqb_spec k (p, v)) as [->|]; [exact Hv|reflexivity].
+Qed.
+
+(* dropping a table entry / detaching a connection change only that table *)
+Lemma drop_vt_other h kd sid :
+  h_sessions (drop_vt h kd sid) = h_sessions h /\ h_rooms (drop_vt h kd sid) = h_rooms h /\
+  h_rs1 (drop_vt h kd sid) = h_rs1 h /\ h_rs2 (drop_vt h kd sid) = h_rs2 h /\
+  h_expired (drop_vt h kd sid) = h_expired h /\ h_anonymous (drop_vt h kd sid) = h_anonymous h /\
+  h_dialout (drop_vt h kd sid) = h_dialout h /\ h_clients (drop_vt h kd sid) = h_clients h /\
+  h_counted (drop_vt h kd sid) = h_counted h /\ h_conns (drop_vt h kd sid) = h_conns h.
+Proof.
+  unfold drop_vt. destruct kd as [| |p v]; try (repeat split; reflexivity).
+  destruct (pget (h_vtable h) (p, v)) as [x|]; [destruct (N.eqb x sid)|]; repeat split; reflexivity.
+Qed.
+Lemma detach_conn_other h oc :
+  h_sessions (detach_conn h oc) = h_sessions h /\ h_rooms (detach_conn h oc) = h_rooms h /\
+  h_rs1 (detach_conn h oc) = h_rs1 h /\ h_rs2 (detach_conn h oc) = h_rs2 h /\
+  h_expired (detach_conn h oc) = h_expired h /\ h_anonymous (detach_conn h oc) = h_anonymous h /\
+  h_dialout (detach_conn h oc) = h_dialout h /\ h_clients (detach_conn h oc) = h_clients h /\
+  h_counted (detach_conn h oc) = h_counted h /\ h_vtable (detach_conn h oc) = h_vtable h.
+Proof.
+  unfold detach_conn. destruct oc as [c0|]; [|repeat split; reflexivity].
+  destruct (aget (h_conns h) c0); repeat split; reflexivity.
+Qed.
+
+Lemma scrub_proj h sid :
+  h_sessions (scrub h sid) = adel (h_sessions h) sid /\ h_rooms (scrub h sid) = h_rooms h /\
+  h_rs1 (scrub h sid) = h_rs1 h /\ h_rs2 (scrub h sid) = h_rs2 h /\
+  h_expired (scrub h sid) = nrem sid (h_expired h) /\ h_anonymous (scrub h sid) = nrem sid (h_anonymous h) /\
+  h_dialout (scrub h sid) = nrem sid (h_dialout h) /\ h_clients (scrub h sid) = nrem sid (h_clients h) /\
+  h_counted (scrub h sid) = map (fun e => (fst e, nrem sid (snd e))) (h_counted h) /\
+  h_conns (scrub h sid) = h_conns h /\ h_vtable (scrub h sid) = h_vtable h.
+Proof. repeat split; reflexivity. Qed.
+
+(* removing a session that is in no room and in no room-session entry, together with every
+   list entry, its connection's attachment and its table entry: the invariant survives,
+   except that its virtual sessions (closed next) now have a dead parent *)
+Lemma wf_remove xr xp H sid s :
+  WFg xr xp H -> get_sess H sid = Some s -> s.(s_room) = None ->
+  WFg xr (or_sid xp sid) (drop_vt (detach_conn (scrub H sid) s.(s_conn)) s.(s_kind) sid).
+Proof.
+  intros W Hs Hroom.
+  set (F := drop_vt (detach_conn (scrub H sid) (s_conn s)) (s_kind s) sid).
+  destruct (drop_vt_other (detach_conn (scrub H sid) (s_conn s)) (s_kind s) sid) as (D1 & D2 & D3 & D4 & D5 & D6 & D7 & D8 & D9 & D10).
+  destruct (detach_conn_other (scrub H sid) (s_conn s)) as (E1 & E2 & E3 & E4 & E5 & E6 & E7 & E8 & E9 & E10).
+  destruct (scrub_proj H sid) as (S1 & S2 & S3 & S4 & S5 & S6 & S7 & S8 & S9 & S10 & S11).
+  assert (Hget : forall x, get_sess F x = if N.eqb x sid then None else get_sess H x).
+  { intros x. unfold get_sess, F. rewrite D1, E1, S1. apply aget_adel. }
+  assert (Hlive : forall x, x <> sid -> live H x -> live F x).
+  { intros x Hne [sx Hx]. exists sx. rewrite Hget. destruct (N.eqb_spec x sid); [contradiction|assumption]. }
+  assert (Hrooms : h_rooms F = h_rooms H) by (unfold F; rewrite D2, E2, S2; reflexivity).
+  assert (Hnors : aget (h_rs1 H) sid = None).
+  { destruct (aget (h_rs1 H) sid) as [x|] eqn:Hx; [|reflexivity].
+    destruct (wf_rs1 _ _ H W sid x Hx) as [s0 [k [Hs0 Hk0]]]. rewrite Hs in Hs0. injection Hs0 as <-. congruence. }
+  assert (Hnomem : forall k r, room_of H k = Some r -> ~ In sid (r_members r)).
+  { intros k r Hr Hin. destruct (wf_members _ _ H W k r sid Hr Hin) as [s0 [Hs0 Hk0]]. rewrite Hs in Hs0. injection Hs0 as <-. congruence. }
+  constructor.
+  - intros k r m. unfold room_of. rewrite Hrooms. intros Hr Hm.
+    destruct (wf_members _ _ H W k r m Hr Hm) as [sm [Hsm Hkm]]. exists sm. rewrite Hget.
+    destruct (N.eqb_spec m sid) as [->|]; [exfalso; eapply Hnomem; eauto|auto].
+  - intros k r. unfold room_of. rewrite Hrooms. apply (wf_nonempty _ _ H W).
+  - intros k r m. unfold room_of. rewrite Hrooms. apply (wf_incall _ _ H W).
+  - intros x sx k. rewrite Hget. destruct (N.eqb_spec x sid); [discriminate|]. intros Hx Hk.
+    unfold room_of. rewrite Hrooms. apply (wf_room _ _ H W x sx k Hx Hk).
+  - intros x v. unfold F. rewrite D3, E3, S3. intros Hx.
+    destruct (wf_rs1 _ _ H W x v Hx) as [sx [k [Hsx Hkx]]]. exists sx, k. rewrite Hget.
+    destruct (N.eqb_spec x sid) as [->|]; [congruence|auto].
+  - intros x y. unfold F. rewrite D3, D4, E3, E4, S3, S4. apply (wf_rs2 _ _ H W).
+  - intros p v vs. unfold F. rewrite drop_vt_get. rewrite E10, S11. intros Hv.
+    assert (Hv0 : pget (h_vtable H) (p, v) = Some vs /\ vs <> sid).
+    { destruct (s_kind s) as [| |p0 v0] eqn:Hkd.
+      - split; [assumption|]. intros ->. destruct (wf_vt _ _ H W p v sid Hv) as [s0 [Hs0 Hk0]]. rewrite Hs in Hs0. injection Hs0 as <-. congruence.
+      - split; [assumption|]. intros ->. destruct (wf_vt _ _ H W p v sid Hv) as [s0 [Hs0 Hk0]]. rewrite Hs in Hs0. injection Hs0 as <-. congruence.
+      - destruct (pair_eqb_spec (p, v) (p0, v0)) as [Heq|Hne].
+        + injection Heq as -> ->. destruct (pget (h_vtable H) (p0, v0)) as [x|] eqn:Hx; [|discriminate].
+          destruct (N.eqb_spec x sid); [discriminate|]. injection Hv as <-. auto.
+        + split; [assumption|]. intros ->. destruct (wf_vt _ _ H W p v sid Hv) as [s0 [Hs0 Hk0]].
+          rewrite Hs in Hs0. injection Hs0 as <-. rewrite Hkd in Hk0. injection Hk0 as -> ->. now apply Hne. }
+    destruct Hv0 as [Hv0 Hne]. destruct (wf_vt _ _ H W p v vs Hv0) as [sv [Hsv Hkv]]. exists sv. rewrite Hget.
+    destruct (N.eqb_spec vs sid); [contradiction|auto].
+  - intros vs sv p v. rewrite Hget. destruct (N.eqb_spec vs sid); [discriminate|]. intros Hsv Hkv.
+    destruct (wf_parent _ _ H W vs sv p v Hsv Hkv) as [Hx|[ps [Hps Hpi]]]; [left; now left|].
+    destruct (N.eq_dec p sid) as [->|Hne]; [left; now right|right]. exists ps. rewrite Hget.
+    destruct (N.eqb_spec p sid); [contradiction|auto].
+  - intros x. unfold F. rewrite D5, E5, S5. intros Hx.
+    apply Hlive; [eapply in_nrem_ne; eauto|]. apply (wf_expired _ _ H W). eapply in_nrem; eauto.
+  - intros x. unfold F. rewrite D6, E6, S6. intros Hx.
+    apply Hlive; [eapply in_nrem_ne; eauto|]. apply (wf_anonymous _ _ H W). eapply in_nrem; eauto.
+  - intros x. unfold F. rewrite D7, E7, S7. intros Hx.
+    apply Hlive; [eapply in_nrem_ne; eauto|]. apply (wf_dialout _ _ H W). eapply in_nrem; eauto.
+  - intros x. unfold F. rewrite D8, E8, S8. intros Hx.
+    apply Hlive; [eapply in_nrem_ne; eauto|]. apply (wf_clients _ _ H W). eapply in_nrem; eauto.
+  - intros b l x. unfold F. rewrite D9, E9, S9. intros Hb Hx.
+    assert (Hb0 : exists l0, aget (h_counted H) b = Some l0 /\ l = nrem sid l0).
+    { clear - Hb. induction (h_counted H) as [|[b0 l0] r IH]; cbn in *; [discriminate|].
+      destruct (N.eqb b b0); [injection Hb as <-; eauto|auto]. }
+    destruct Hb0 as [l0 [Hb0 ->]]. apply Hlive; [eapply in_nrem_ne; eauto|].
+    apply (wf_counted _ _ H W b l0). assumption. eapply in_nrem; eauto.
+  - intros c cn x. unfold F. rewrite D10, detach_conn_get, S10. intros Hc Hx.
+    assert (Hc0 : aget (h_conns H) c = Some cn /\ s_conn s <> Some c).
+    { destruct (s_conn s) as [c0|] eqn:Hc0.
+      - destruct (N.eqb_spec c c0) as [->|Hne].
+        + destruct (aget (h_conns H) c0); [|discriminate]. cbn in Hc. injection Hc as <-. cbn in Hx. discriminate.
+        + split; [assumption|congruence].
+      - split; [assumption|discriminate]. }
+    destruct Hc0 as [Hc0 Hnc]. destruct (wf_conns _ _ H W c cn x Hc0 Hx) as [sx [Hsx Hcx]]. exists sx. rewrite Hget.
+    destruct (N.eqb_spec x sid) as [->|]; [|auto]. rewrite Hs in Hsx. injection Hsx as <-. contradiction.
+Qed.
+
+Lemma fst_eq {A B} (p : A * B) a b : p = (a, b) -> a = fst p.
+Proof. intros ->. reflexivity. Qed.
+
+Lemma wf_close_one xr xp h sid : WFg xr xp h -> WFg xr (or_sid xp sid) (fst (close_one h sid)).
+Proof.
+  intros W. unfold close_one. destruct (get_sess h sid) as [s|] eqn:Hs.
+  2:{ cbn [fst]. eapply wf_weaken; [| |exact W]; auto. intros p Hp. now left. }
+  destruct (leave_room h sid true) as [h1 o1] eqn:Hl.
+  destruct (release_mcu h1 sid) as [h2a o2a] eqn:Hr.
+  set (h2 := set_mcu h2a (h_mcutok h2a) (filter (fun e => negb (N.eqb (mp_owner (snd e)) sid)) (h_mcupending h2a)) (h_mcuopen h2a)).
+  pose proof (fst_eq _ _ _ Hl) as E1. pose proof (fst_eq _ _ _ Hr) as E2a.
+  assert (E12 : equiv h1 h2).
+  { eapply equiv_trans; [|apply equiv_mcu]. rewrite E2a. apply equiv_release_mcu. }
+  assert (W2 : WFg xr xp h2).
+  { eapply wf_equiv; [exact E12|]. rewrite E1. apply wf_leave_room. exact W. }
+  assert (Hc2 : exists s2, get_sess h2 sid = Some s2 /\ s_room s2 = None /\ s_kind s2 = s_kind s /\ s_conn s2 = s_conn s).
+  { pose proof (eq_sess _ _ E12 sid) as Hq. rewrite E1, leave_room_core, N.eqb_refl, Hs in Hq.
+    destruct (get_sess h2 sid) as [s2|]; [|destruct (s_room s); discriminate].
+    exists s2. split; [reflexivity|]. cbn in Hq.
+    unfold core, unroomed in Hq. destruct (s_room s) eqn:Hrm; inversion Hq; repeat split; congruence. }
+  destruct Hc2 as [s2 [Hs2 [Hr2 [Hk2 Hcn2]]]].
+  assert (Hfin : WFg xr (or_sid xp sid) (drop_vt (detach_conn (scrub h2 sid) (s_conn s)) (s_kind s) sid)).
+  { rewrite <- Hk2, <- Hcn2. apply wf_remove; assumption. }
+  destruct (s_kind s); cbn [fst]; exact Hfin.
+Qed.
+
+(* ------------------------------------------------------------------ closing a session with its virtual sessions *)
+Lemma close_one_core h x y : y <> x ->
+  option_map core (get_sess (fst (close_one h x)) y) = option_map core (get_sess h y).
+Proof.
+  intros Hne. unfold close_one. destruct (get_sess h x) as [s|] eqn:Hs; [|reflexivity].
+  destruct (leave_room h x true) as [h1 o1] eqn:Hl.
+  destruct (release_mcu h1 x) as [h2a o2a] eqn:Hr.
+  set (h2 := set_mcu h2a (h_mcutok h2a) (filter (fun e => negb (N.eqb (mp_owner (snd e)) x)) (h_mcupending h2a)) (h_mcuopen h2a)).
+  pose proof (fst_eq _ _ _ Hl) as E1. pose proof (fst_eq _ _ _ Hr) as E2a.
+  assert (E12 : equiv h1 h2).
+  { eapply equiv_trans; [|apply equiv_mcu]. rewrite E2a. apply equiv_release_mcu. }
+  assert (Hfin : option_map core (get_sess (drop_vt (detach_conn (scrub h2 x) (s_conn s)) (s_kind s) x) y) = option_map core (get_sess h y)).
+  { destruct (drop_vt_other (detach_conn (scrub h2 x) (s_conn s)) (s_kind s) x) as (D1 & _).
+    destruct (detach_conn_other (scrub h2 x) (s_conn s)) as (F1 & _).
+    destruct (scrub_proj h2 x) as (S1 & _).
+    unfold get_sess at 1. rewrite D1, F1, S1, aget_adel. destruct (N.eqb_spec y x); [contradiction|].
+    fold (get_sess h2 y). rewrite (eq_sess _ _ E12 y), E1, leave_room_core.
+    destruct (N.eqb_spec y x); [contradiction|reflexivity]. }
+  destruct (s_kind s); cbn [fst]; exact Hfin.
+Qed.
+
+Lemma close_one_gone h x : get_sess (fst (close_one h x)) x = None.
+Proof.
+  unfold close_one. destruct (get_sess h x) as [s|] eqn:Hs; [|exact Hs].
+  destruct (leave_room h x true) as [h1 o1]. destruct (release_mcu h1 x) as [h2a o2a].
+  match goal with |- context [drop_vt (detach_conn (scrub ?hh x) ?c) ?k x] => set (h2 := hh) end.
+  assert (Hfin : get_sess (drop_vt (detach_conn (scrub h2 x) (s_conn s)) (s_kind s) x) x = None).
+  { destruct (drop_vt_other (detach_conn (scrub h2 x) (s_conn s)) (s_kind s) x) as (D1 & _).
+    destruct (detach_conn_other (scrub h2 x) (s_conn s)) as (F1 & _).
+    destruct (scrub_proj h2 x) as (S1 & _).
+    unfold get_sess. rewrite D1, F1, S1. apply aget_adel_same. }
+  destruct (s_kind s); cbn [fst]; exact Hfin.
+Qed.
+
+(* an exception for a parent that no remaining session names can be dropped *)
+Lemma wf_drop_exception xr xp h x :
+  WFg xr (or_sid xp x) h ->
+  (forall vs s v, get_sess h vs = Some s -> s.(s_kind) <> KVirtual x v) ->
+  WFg xr xp h.
+Proof.
+  intros W Hno. constructor; try apply W.
+  intros vs s p v Hs Hk. destruct (wf_parent _ _ h W vs s p v Hs Hk) as [[Hx|Hx]|Hl]; auto.
+  subst p. exfalso. eapply Hno; eauto.
+Qed.
+
+Lemma in_children h sid vs : In vs (children h sid) <->
+  In vs (map fst (h_sessions h)) /\ exists s v, get_sess h vs = Some s /\ s.(s_kind) = KVirtual sid v.
+Proof.
+  unfold children. rewrite in_map_iff. split.
+  - intros [[vs' s] [Hf Hin]]. cbn in Hf. subst vs'. apply filter_In in Hin as [Hin Hk]. cbn [fst] in Hk.
+    split; [apply in_map_iff; exists (vs, s); auto|].
+    destruct (get_sess h vs) as [s0|]; [|discriminate]. destruct (s_kind s0) as [| |p v] eqn:Hkd; try discriminate.
+    apply N.eqb_eq in Hk. subst p. eauto.
+  - intros [Hin [s [v [Hs Hk]]]]. apply in_map_iff in Hin as [[vs' s'] [Hf Hin]]. cbn in Hf. subst vs'.
+    exists (vs, s'). split; [reflexivity|]. apply filter_In. split; [assumption|]. cbn [fst]. rewrite Hs, Hk. apply N.eqb_refl.
+Qed.
+
+Lemma aget_In {V} (l : alist V) k v : aget l k = Some v -> In (k, v) l.
+Proof.
+  induction l as [|[k' v'] r IH]; cbn; [discriminate|].
+  destruct (N.eqb_spec k k') as [->|]; [intros H; injection H as ->; now left|right; auto].
+Qed.
+
+Definition close_all (kids : list N) (acc : hub * list out) : hub * list out :=
+  fold_left (fun acc k => let '(hh, oo) := acc in let '(hh', oo') := close_one hh k in (hh', oo ++ oo')) kids acc.
+
+Lemma close_one_dead h x : get_sess h x = None -> close_one h x = (h, []).
+Proof. intros H. unfold close_one. now rewrite H. Qed.
+
+(* closing the virtual sessions of a parent that is already gone *)
+Lemma wf_close_all xr sid kids : forall hh o,
+  WFg xr (or_sid none1 sid) hh -> get_sess hh sid = None ->
+  (forall k s, In k kids -> get_sess hh k = Some s -> is_virtual s.(s_kind) = true) ->
+  let F := fst (close_all kids (hh, o)) in
+  WFg xr (or_sid none1 sid) F /\ get_sess F sid = None /\
+  (forall y, ~ In y kids -> option_map core (get_sess F y) = option_map core (get_sess hh y)) /\
+  (forall y, In y kids -> get_sess F y = None).
+Proof.
+  induction kids as [|k kids IH]; intros hh o W Hsid Hv; cbn [close_all fold_left fst].
+  - split; [exact W|]. split; [exact Hsid|]. split; [reflexivity|]. intros y [].
+  - destruct (close_one hh k) as [h1 o1] eqn:Hc. pose proof (fst_eq _ _ _ Hc) as E1.
+    fold (close_all kids (h1, o ++ o1)).
+    assert (Hcore1 : forall y, y <> k -> option_map core (get_sess h1 y) = option_map core (get_sess hh y)).
+    { intros y Hy. rewrite E1. now apply close_one_core. }
+    assert (Hgone1 : get_sess h1 k = None) by (rewrite E1; apply close_one_gone).
+    assert (Hsid1 : get_sess h1 sid = None).
+    { destruct (N.eq_dec sid k) as [->|Hne]; [assumption|]. specialize (Hcore1 sid Hne). rewrite Hsid in Hcore1.
+      destruct (get_sess h1 sid); [discriminate|reflexivity]. }
+    assert (W1 : WFg xr (or_sid none1 sid) h1).
+    { destruct (get_sess hh k) as [sk|] eqn:Hk.
+      2:{ rewrite (close_one_dead hh k Hk) in Hc. injection Hc as <- <-. exact W. }
+      apply (wf_drop_exception xr (or_sid none1 sid) h1 k).
+      - rewrite E1. apply wf_close_one. exact W.
+      - intros vs s v Hs Hkd.
+        assert (Hne : vs <> k) by (intros ->; rewrite Hgone1 in Hs; discriminate).
+        pose proof (Hcore1 vs Hne) as Hq. rewrite Hs in Hq. cbn in Hq.
+        destruct (get_sess hh vs) as [s0|] eqn:Hs0; [|discriminate]. cbn in Hq. apply core_some_eq in Hq as (_ & Hq & _).
+        assert (Hk0 : s_kind s0 = KVirtual k v) by congruence.
+        destruct (wf_parent _ _ hh W vs s0 k v Hs0 Hk0) as [[[]|Hx]|[ps [Hps Hpi]]].
+        + subst k. rewrite Hsid in Hk. discriminate.
+        + rewrite Hk in Hps. injection Hps as <-.
+          pose proof (Hv k sk (or_introl eq_refl) Hk) as Hvk. destruct (s_kind sk); discriminate. }
+    assert (Hv1 : forall k' s, In k' kids -> get_sess h1 k' = Some s -> is_virtual (s_kind s) = true).
+    { intros k' s Hin Hs. destruct (N.eq_dec k' k) as [->|Hne]; [rewrite Hgone1 in Hs; discriminate|].
+      pose proof (Hcore1 k' Hne) as Hq. rewrite Hs in Hq. cbn in Hq.
+      destruct (get_sess hh k') as [s0|] eqn:Hs0; [|discriminate]. cbn in Hq. apply core_some_eq in Hq as (_ & Hq & _).
+      rewrite Hq. eapply Hv; eauto. now right. }
+    destruct (IH h1 (o ++ o1) W1 Hsid1 Hv1) as (WF' & HsidF & HcoreF & HgoneF).
+    split; [exact WF'|]. split; [exact HsidF|]. split.
+    + intros y Hy. rewrite HcoreF by (intros Hin; apply Hy; now right). apply Hcore1. intros ->. apply Hy. now left.
+    + intros y [<-|Hin]; [|auto].
+      destruct (in_dec N.eq_dec k kids) as [Hin|Hnin]; [auto|].
+      pose proof (HcoreF k Hnin) as Hq. rewrite Hgone1 in Hq. cbn in Hq.
+      destruct (get_sess (fst (close_all kids (h1, o ++ o1))) k); [discriminate Hq|reflexivity].
+Qed.
+
+Lemma wf_close_session xr h sid : WFg xr none1 h -> WFg xr none1 (fst (close_session h sid)).
+Proof.
+  intros W. unfold close_session.
+  destruct (close_one h sid) as [h1 o1] eqn:Hc. pose proof (fst_eq _ _ _ Hc) as E1.
+  fold (close_all (children h sid) (h1, o1)).
+  assert (W1 : WFg xr (or_sid none1 sid) h1) by (rewrite E1; apply wf_close_one; exact W).
+  assert (Hsid1 : get_sess h1 sid = None) by (rewrite E1; apply close_one_gone).
+  assert (Hcore1 : forall y, y <> sid -> option_map core (get_sess h1 y) = option_map core (get_sess h y)).
+  { intros y Hy. rewrite E1. now apply close_one_core. }
+  assert (Hv1 : forall k s, In k (children h sid) -> get_sess h1 k = Some s -> is_virtual (s_kind s) = true).
+  { intros k s Hin Hs. destruct (N.eq_dec k sid) as [->|Hne]; [rewrite Hsid1 in Hs; discriminate|].
+    pose proof (Hcore1 k Hne) as Hq. rewrite Hs in Hq. cbn in Hq.
+    destruct (get_sess h k) as [s0|] eqn:Hs0; [|discriminate]. cbn in Hq. apply core_some_eq in Hq as (_ & Hq & _).
+    apply in_children in Hin as [_ [sk [v [Hsk Hkk]]]]. rewrite Hs0 in Hsk. injection Hsk as <-. rewrite Hq, Hkk. reflexivity. }
+  destruct (wf_close_all xr sid (children h sid) h1 o1 W1 Hsid1 Hv1) as (WF' & HsidF & HcoreF & HgoneF).
+  apply (wf_drop_exception xr none1 _ sid); [exact WF'|].
+  intros vs s v Hs Hkd.
+  (* a remaining session naming sid as parent was one of the children, and those are gone *)
+  destruct (in_dec N.eq_dec vs (children h sid)) as [Hin|Hnin].
+  - rewrite (HgoneF vs Hin) in Hs. discriminate.
+  - pose proof (HcoreF vs Hnin) as Hq. rewrite Hs in Hq. cbn in Hq.
+    destruct (get_sess h1 vs) as [s1|] eqn:Hs1; [|discriminate]. cbn in Hq. apply core_some_eq in Hq as (_ & Hq & _).
+    assert (Hne : vs <> sid) by (intros ->; rewrite Hsid1 in Hs1; discriminate).
+    pose proof (Hcore1 vs Hne) as Hq1. rewrite Hs1 in Hq1. cbn in Hq1.
+    destruct (get_sess h vs) as [s0|] eqn:Hs0; [|discriminate]. cbn in Hq1. apply core_some_eq in Hq1 as (_ & Hq1 & _).
+    apply Hnin. apply in_children. split.
+    + unfold get_sess in Hs0. apply aget_In in Hs0. apply in_map_iff. exists (vs, s0). auto.
+    + exists s0, v. split; [exact Hs0|congruence].
 Qed.
